@@ -22,7 +22,8 @@ def step_case(c):
     vol = fdtdx.SimulationVolume(partial_grid_shape=shape)
     bc = fdtdx.BoundaryConfig.from_uniform_bound(thickness=1, override_types=c["bt"])
     bd, cons = fdtdx.boundary_objects_from_config(bc, vol)
-    mat = fdtdx.Material(permittivity=c.get("eps", 2.0), dispersion=fdtdx.DispersionModel(poles=tuple(mk_pole(p, dt) for p in c["poles"])))
+    mat = fdtdx.Material(permittivity=c.get("eps", 2.0), dispersion=fdtdx.DispersionModel(poles=tuple(mk_pole(p, dt) for p in c["poles"])),
+                         **({"electric_conductivity": float(c["sigma"])} if c.get("sigma") else {}))
     blk = fdtdx.UniformMaterialObject(name="blk", partial_grid_shape=tuple(b[1] - b[0] for b in c["box"]), material=mat)
     cons += [blk.set_grid_coordinates(axes=(0, 1, 2), sides=("-", "-", "-"), coordinates=tuple(b[0] for b in c["box"]))]
     with warnings.catch_warnings():
@@ -57,7 +58,8 @@ def stab_case(c):
     dt = cfg.time_step_duration
     nsteps = c["nsteps"]
     cfg = cfg.aset("time", dt * nsteps)
-    mat = fdtdx.Material(permittivity=c.get("eps", 1.0), dispersion=fdtdx.DispersionModel(poles=tuple(mk_pole(p, dt) for p in c["poles"])))
+    mat = fdtdx.Material(permittivity=c.get("eps", 1.0), dispersion=fdtdx.DispersionModel(poles=tuple(mk_pole(p, dt) for p in c["poles"])),
+                         **({"electric_conductivity": float(c["sigma"])} if c.get("sigma") else {}))
     vol = fdtdx.SimulationVolume(partial_grid_shape=(4, 4, 4), material=mat)
     bc = fdtdx.BoundaryConfig.from_uniform_bound(thickness=1, override_types={f: c.get("wall", "periodic") for f in FACES})
     bd, cons = fdtdx.boundary_objects_from_config(bc, vol)
